@@ -1,5 +1,5 @@
 SPECIFICATION Spec
-CONSTANTS NA = 1 NB = 2 NV = 1 MaxLen = 3 MaxArg = 3 Prune = FALSE
+CONSTANTS NA = 1 NB = 2 NV = 1 MaxLen = 2 MaxArg = 2 Prune = FALSE
 CONSTRAINT Bound
 VIEW View
 INVARIANTS TypeOK Refines
